@@ -141,6 +141,8 @@ if __name__ == "__main__":
     # shrunk campaign cases kept as they were found (known_examples/C02/<id>.json)
     EXTRA = {"mixed-ambiguous-choices": "a mixed type whose children share a simple type is generated with ambiguous wildcard choices; the class cannot be bound "
                                         "(XmlContextError: Compound field contains ambiguous types)",
+             "mixed-sibling-classes-confused": "mixed content with same-named children at different levels: a text child is bound through the wrapper class of a sibling of another type (Failed to convert value)",
+             "unnest-disambiguation-classes-share-a-name": "compound fields + unnest_classes: the helper classes that disambiguate same-typed choices are named after the element; two of them from different types collide and one type's values are bound through the other's class",
              "mixed-tail-after-child-with-wildcard": "mixed content: the text that follows a child element whose own content ends in an xs:any element is moved inside that child"}
     for name, what in EXTRA.items():
         if only and name not in only:
